@@ -45,7 +45,7 @@ def _w(names, wgt, base=None, rest=0.3):
 
 
 H5_ALPHAS = ['ascii', 'ascii', 'num', 'punct', 'slash', 'unicode', 'long',
-             'natsort']
+             'natsort', 'ws']
 # metadata categories allowed where the table travels to HDF5 (C01 grammar):
 # indices into values.MD_CATS (note 'ph' float, 'depth' int, 'flag' bool)
 H5_CATS = [0, 1, 2, 3, 4, 5, 6, 8]
@@ -160,7 +160,7 @@ PROFILES['C02'] = {
     'name': 'C02', 'ops': {o: 1.0 for o in ALL_OPS},
     'md_cats': list(range(14)),
     'alphas': ['ascii', 'num', 'punct', 'slash', 'unicode', 'long', 'ctrl',
-               'ctrl'], 'ctrl_md': 0.6,
+               'ctrl', 'ws'], 'ctrl_md': 0.6,
     'vfams': ['wild', 'wild', 'exact', 'counts'],
     'kinds': {'op': 5, 'perturb': 4, 'read': 1, 'probe': 3.0},
     'lens': [4, 6, 10, 16, 24], 'probes': {'c02_json': 1.0},
